@@ -8,10 +8,11 @@ use crate::rings::SimRing;
 
 fn gen_val(rng: &mut Rng, ring: &str, kind: u32) -> Value {
     match ring {
-        "Z" => <i64 as SimRing>::gen(rng, kind),
+        "Z" | "ZB" => <i64 as SimRing>::gen(rng, kind),
         "Q" => <yui::Ratio<i64> as SimRing>::gen(rng, kind),
         "F2" => <yui::FF<2> as SimRing>::gen(rng, kind),
         "F3" => <yui::FF<3> as SimRing>::gen(rng, kind),
+        "F7" => <yui::FF<7> as SimRing>::gen(rng, kind),
         "ZH" => <yui::poly::Poly<'H', i64> as SimRing>::gen(rng, kind),
         "ZI" => <yui::GaussInt<i64> as SimRing>::gen(rng, kind),
         _ => panic!("ring {ring}"),
@@ -20,10 +21,11 @@ fn gen_val(rng: &mut Rng, ring: &str, kind: u32) -> Value {
 
 pub fn neg_val(ring: &str, v: &Value) -> Value {
     match ring {
-        "Z" => json!(-v.as_i64().unwrap()),
+        "Z" | "ZB" => json!(-v.as_i64().unwrap()),
         "Q" => json!([-v[0].as_i64().unwrap(), v[1]]),
         "F2" => v.clone(),
         "F3" => json!((3 - v.as_i64().unwrap()) % 3),
+        "F7" => json!((7 - v.as_i64().unwrap()) % 7),
         "ZH" => Value::Array(v.as_array().unwrap().iter().map(|t| json!([t[0], -t[1].as_i64().unwrap()])).collect()),
         "ZI" => json!([-v[0].as_i64().unwrap(), -v[1].as_i64().unwrap()]),
         _ => panic!("ring {ring}"),
@@ -101,7 +103,7 @@ pub fn gen_matrix(rng: &mut Rng, ring: &str) -> Value {
             let one = gen_val(rng, ring, 1);
             let one = if ring == "F2" { json!(1) } else { one };
             let _ = one;
-            let pos = match ring { "Z" => json!(1), "Q" => json!([1, 1]), "F2" | "F3" => json!(1), "ZH" => json!([[0, 1]]), _ => json!([1, 0]) };
+            let pos = match ring { "Z" | "ZB" => json!(1), "Q" => json!([1, 1]), "F2" | "F3" | "F7" => json!(1), "ZH" => json!([[0, 1]]), _ => json!([1, 0]) };
             let neg = neg_val(ring, &pos);
             for (t, &(a, b, c)) in tris.iter().enumerate() {
                 entries.push(json!([eidx(b, c), t, pos]));
@@ -170,7 +172,7 @@ pub fn gen_matrix(rng: &mut Rng, ring: &str) -> Value {
 
 pub fn is_zero_val(ring: &str, v: &Value) -> bool {
     match ring {
-        "Z" | "F2" | "F3" => v.as_i64() == Some(0),
+        "Z" | "ZB" | "F2" | "F3" | "F7" => v.as_i64() == Some(0),
         "Q" => v[0].as_i64() == Some(0),
         "ZH" => v.as_array().unwrap().iter().all(|t| t[1].as_i64() == Some(0)),
         "ZI" => v[0].as_i64() == Some(0) && v[1].as_i64() == Some(0),
